@@ -547,9 +547,18 @@ func TestReplay(t *testing.T) {
 		Factory bool `json:"factory"`
 		Slow    bool `json:"slow_persistent_read"`
 		AutoSv  bool `json:"json_autosave"`
+		Sweep   bool `json:"cache_sweep_race"`
 	}
 	if _, err := vkit.LoadReplay(path, &kind); err != nil {
 		t.Fatal(err)
+	}
+	if kind.Sweep {
+		var sc SweepCase
+		vkit.LoadReplay(path, &sc)
+		if key, detail := runSweepRace(sc); key != "" {
+			vkit.Violation(t, key, detail, sc)
+		}
+		return
 	}
 	if kind.AutoSv {
 		var ac AutoSaveCase
